@@ -13,6 +13,9 @@ CONSTANTS
   UseMineTo = FALSE
   UseCancelBySlate = FALSE
   MaxAdv = 2
+  MaxFork = 0
+  UseScan = FALSE
+  UseDiverge = FALSE
   UseAdv = TRUE
 SPECIFICATION Spec
 INVARIANT TypeOK
